@@ -27,6 +27,11 @@ impl CancelIo for CancelIoImpl {
             if let Some(co) = e.co.take() {
                 #[cfg(may_verif)]
                 may_queue::verif::point(may_queue::verif::site::IO_CANCEL_TOOK, 0);
+                // the operation is over: its timer must not hit a later operation
+                // on the same socket (which may well outlive this coroutine).
+                // we are not on the selector thread, the entry can only be disarmed
+                #[cfg(feature = "io_timeout")]
+                e.disarm_timer();
                 get_scheduler().schedule(co);
                 return Some(Ok(()));
             }
